@@ -54,7 +54,7 @@ def strategy(draw):
         chroms.append({"name": style + ["1", "2", "X"][ci], "segs": segs})
     return {"kind": "seg", "style": style, "chroms": chroms, "seed": draw(st.integers(0, 2 ** 31)),
             "noise": draw(st.sampled_from([0.0, 0.05, 0.3])), "palette": draw(st.booleans()),
-            "null_frac": draw(st.sampled_from([0.0, 0.0, 0.1])),
+            "null_frac": draw(st.sampled_from([0.0, 0.0, 0.0, 0.0, 0.1, 0.1, 1.0])),  # 1.0: every bin null-coverage (with skip_low: no bin left at all)
             "loc": sorted(draw(st.sets(st.sampled_from(LOC)))), "spread": sorted(draw(st.sets(st.sampled_from(SPREAD)))),
             "interval": sorted(draw(st.sets(st.sampled_from(INTERVAL)))),
             "alpha": draw(st.sampled_from([0.001, 0.05, 0.5, 0.9, 0.05])), "boots": draw(st.sampled_from([10, 50, 100, 300])),
